@@ -15,11 +15,14 @@
          OutputEndsFull round trips of `CsvDecoder::decode` only re-enter the loop and are not modelled: the
          correspondence check drives the real decoder from capacity 0 so that those paths run).
    (iii) crates/glaredb_ext_csv/src/decoder.rs: `ByteRecords` (buf, ends, record_boundaries, clear_completed,
-         clear_all, get_record, iter_fields) and `CsvDecoder::decode`; reader.rs `CsvReader::poll_pull` AS WRITTEN
-         (re-transcribed after /repo commits ddfbbbc21 and 0abcb062b): at `Poll::Ready(0)` the reader calls
-         `decoder.decode(&[], ..)` (end-of-input signal) before flushing; `clear_completed` clears everything only
-         if neither bytes nor field ends of a partial record are pending.  The definitions named `_old` are the code
-         BEFORE those commits and are kept only for the regression witnesses. *)
+         clear_all, get_record, iter_fields), `CsvDecoder::decode_inner` (= `decode` below: the csv_core loop) and
+         `CsvDecoder::decode` (= `decode_h`: holds back a first input that ends inside a UTF-8 BOM until it knows);
+         reader.rs `CsvReader::poll_pull` AS WRITTEN (= `reader_loop_h`; re-transcribed after /repo commits ddfbbbc21,
+         0abcb062b and the BOM repair): at `Poll::Ready(0)` the reader calls `decoder.decode(&[], ..)` (end-of-input
+         signal) before flushing; `clear_completed` clears everything only if neither bytes nor field ends of a
+         partial record are pending.  The definitions named `_old` are the code BEFORE those commits;
+         `decode_chunks`, `decode_flush`, `reader_loop` drive `decode_inner` directly (the decoder before the BOM
+         repair): they are kept for the regression witnesses and as the layer the proofs go through. *)
 From Coq Require Import NArith List Bool Arith.
 Import ListNotations.
 
@@ -148,7 +151,7 @@ Definition end_of_chunk (st : dstate) : dstate :=
   then ({| r_state := StartRecord; r_opos := r_opos r; r_has_read := true |}, br)
   else st.
 
-(* CsvDecoder::decode(input, output) *)
+(* CsvDecoder::decode_inner(input, output) (before the BOM repair: CsvDecoder::decode) *)
 Definition decode (d : dialect) (st : dstate) (chunk : list N) : dstate :=
   match chunk with
   | [] => decode_eof st
@@ -161,6 +164,36 @@ Definition decode (d : dialect) (st : dstate) (chunk : list N) : dstate :=
   end.
 
 Definition clear_all (br : byte_records) : byte_records := br_empty.
+
+(* CsvDecoder::decode: `started`, `bom_prefix` + the csv_core reader and the output *)
+Definition BOM : list N := [239; 187; 191]%N.
+(* b.starts_with(a) *)
+Fixpoint is_prefix (a b : list N) : bool :=
+  match a, b with
+  | [], _ => true
+  | x :: a', y :: b' => (x =? y)%N && is_prefix a' b'
+  | _ :: _, [] => false
+  end.
+Definition nilb (l : list N) : bool := match l with [] => true | _ => false end.
+
+Record hstate := { h_started : bool; h_prefix : list N; h_st : dstate }.
+Definition h_init : hstate := {| h_started := false; h_prefix := []; h_st := st_init |}.
+Definition h_run (st : dstate) : hstate := {| h_started := true; h_prefix := []; h_st := st |}.
+
+Definition decode_h (d : dialect) (h : hstate) (input : list N) : hstate :=
+  if h_started h then h_run (decode d (h_st h) input)
+  else if nilb (h_prefix h) && (nilb input || (3 <=? length input) || negb (is_prefix input BOM))
+  then h_run (decode d (h_st h) input)             (* holds the complete BOM, or does not start with one *)
+  else
+    let count := Nat.min (3 - length (h_prefix h)) (length input) in
+    let prefix := h_prefix h ++ firstn count input in
+    let rest := skipn count input in
+    if negb (nilb input) && (length prefix <? 3) && is_prefix prefix BOM
+    then {| h_started := false; h_prefix := prefix; h_st := h_st h |}     (* still unknown: NeedsMore *)
+    else
+      let st1 := decode d (h_st h) prefix in
+      if nilb rest && negb (nilb input) then h_run st1
+      else h_run (decode d st1 rest).
 
 (* ByteRecords::clear_completed, as written (after 0abcb062b):
      if last.end_offset == self.buf_len && last.end_idx + 1 == self.ends_len { clear everything } else { carry } *)
@@ -259,8 +292,8 @@ Definition run_reader (d : dialect) (bs : list N) : option (list (list (list N))
    call, followed by the end-of-input signal iff the sample reached the end of the file (`eof`, read_csv.rs:
    `n < INFER_BUF_SIZE`) *)
 Definition run_sample (d : dialect) (eof : bool) (bs : list N) : option (list (list (list N))) :=
-  let st := decode d st_init bs in
-  records_of (snd (if eof then decode_eof st else st)).
+  let h := decode_h d h_init bs in
+  records_of (snd (h_st (if eof then decode_h d h [] else h))).
 
 (* ------------------------------------------------------------------ CsvReader::poll_pull, rows level *)
 (* Reading{skip_first}: every chunk is decoded; when num_records >= out_cap the decoded records (minus the header
@@ -278,8 +311,40 @@ Fixpoint reader_loop (d : dialect) (out_cap : nat) (skip_first : bool) (st : dst
       else reader_loop d out_cap skip_first st' rest
   end.
 
+(* the same loop over CsvDecoder::decode (BOM held back): the reader AS WRITTEN *)
+Fixpoint reader_loop_h (d : dialect) (out_cap : nat) (skip_first : bool) (h : hstate)
+         (chunks : list (list N)) : option (list (list (list N))) :=
+  let emit (br : byte_records) := option_map (fun rs => if skip_first then tl rs else rs) (records_of br) in
+  match chunks with
+  | [] => emit (snd (h_st (decode_h d h [])))
+  | ch :: rest =>
+      let h' := decode_h d h ch in
+      if out_cap <=? length (bounds (snd (h_st h')))
+      then opt_app (emit (snd (h_st h')))
+             (reader_loop_h d out_cap false
+                {| h_started := h_started h'; h_prefix := h_prefix h';
+                   h_st := (fst (h_st h'), clear_completed (snd (h_st h'))) |} rest)
+      else reader_loop_h d out_cap skip_first h' rest
+  end.
+
+Definition read_file_h (d : dialect) (has_header : bool) (out_cap : nat) (chunks : list (list N)) :=
+  reader_loop_h d out_cap has_header h_init chunks.
 Definition read_file (d : dialect) (has_header : bool) (out_cap : nat) (chunks : list (list N)) :=
   reader_loop d out_cap has_header st_init chunks.
+
+(* records accumulating / flushed after every chunk, over CsvDecoder::decode (what gv_csv decode drives) *)
+Definition decode_chunks_h (d : dialect) (chunks : list (list N)) : hstate :=
+  fold_left (decode_h d) chunks h_init.
+Fixpoint decode_flush_h_from (d : dialect) (h : hstate) (chunks : list (list N)) : option (list (list (list N))) :=
+  match chunks with
+  | [] => records_of (snd (h_st h))
+  | ch :: rest =>
+      let h' := decode_h d h ch in
+      opt_app (records_of (snd (h_st h')))
+        (decode_flush_h_from d {| h_started := h_started h'; h_prefix := h_prefix h';
+                                  h_st := (fst (h_st h'), clear_completed (snd (h_st h'))) |} rest)
+  end.
+Definition decode_flush_h (d : dialect) (chunks : list (list N)) := decode_flush_h_from d h_init chunks.
 
 (* OLD reader (before ddfbbbc21): no end-of-input signal, old clear_completed *)
 Fixpoint reader_loop_old (d : dialect) (out_cap : nat) (skip_first : bool) (st : dstate)
